@@ -15,7 +15,9 @@ corr  : every planted fault is compiled by the real mako (string path, probe lex
           * faults that only the generated module's compilation finds: the model predicts no Mako-level error.
 oracle: no Lean.  Ground truth from the generator (line of the offending Python line / line+column where the offending
         construct begins); exception class, lineno, pos, filename, source on four construction paths (string, file,
-        lookup, module directory), identical fields across paths; RichTraceback(error).lineno/source,
+        fresh lookup, module directory) and three reload paths (a lookup that has already served a good version of the
+        file re-compiles the edited file through _check -> _load: get_template, with a module directory, through a
+        parent's <%include>), identical fields across paths; RichTraceback(error).lineno/source,
         text_error_template() and html_error_template() output, format_exceptions=True output; a faulty template B
         pulled in by a healthy A (<%include>, <%inherit>, <%namespace file>) through a lookup is displayed at B's line.
 """
@@ -59,7 +61,7 @@ TRUSTED_EXTRA = [
     "C11: pygments' HTML formatter output shape (class 'error syntax-highlighted', span.normal = line number) when "
     "pygments is installed",
 ]
-REGEN = ["Unicode", "LexerCfg"]
+REGEN = ["Unicode", "LexerCfg", "ErrPos"]
 DRIVER_OPS = ["errpos"]
 
 LEXER_CLASSES = {
@@ -171,6 +173,8 @@ class Impl:
                 d, fn = self.write(src)
                 md = os.path.join(d, "modules")
                 self.lookup.TemplateLookup(directories=[d], module_directory=md).get_template("/t.html")
+            elif path_kind in ("reload", "reload-moddir", "reload-include"):
+                return self.construct_reload(path_kind, src)
             else:
                 raise ValueError(path_kind)
             return {"outcome": "ok"}, fn
@@ -178,7 +182,38 @@ class Impl:
             return self.describe(e), fn
 
 
-PATHS = ["string", "file", "lookup", "moddir"]
+    GOOD = "good version ${1 + 1}\n"
+
+    def construct_reload(self, path_kind, src):
+        """a lookup (filesystem checks on) that has already served a good version of the file; the file is then
+        replaced by the faulty text with a newer mtime; the next get_template (or the <%include> of a parent that
+        has been rendered before) re-compiles it through TemplateLookup._check -> _load"""
+        import time
+        d, fn = self.write(self.GOOD)
+        with open(os.path.join(d, "parent.html"), "wb") as f:
+            f.write(b"parent\n<%include file='t.html'/>\nend\n")
+        kw = {}
+        if path_kind == "reload-moddir":
+            kw["module_directory"] = os.path.join(d, "modules")
+        lk = self.lookup.TemplateLookup(directories=[d], **kw)
+        first = lk.get_template("t.html").render_unicode()
+        parent = lk.get_template("parent.html")
+        assert "good version 2" in first and "good version 2" in parent.render_unicode()
+        with open(fn, "wb") as f:
+            f.write(src.encode("utf-8"))
+        later = int(time.time()) + 60
+        os.utime(fn, (later, later))
+        try:
+            if path_kind == "reload-include":
+                parent.render_unicode()
+            else:
+                lk.get_template("t.html")
+            return {"outcome": "ok"}, fn
+        except Exception as e:
+            return self.describe(e), fn
+
+
+PATHS = ["string", "file", "lookup", "moddir", "reload", "reload-moddir", "reload-include"]
 
 # --------------------------------------------------------------------------------------------- ground truth helpers
 
@@ -763,8 +798,8 @@ def run(ctx):
         ws = witness_cases()
         run_faults(ctx, impl, ws, "witnesses-model", "witnesses-oracle", 1, 1, 1)
         if ctx.quick:
-            plan = [(100, 30, 1)]
-            path_every, display_every, pulled_every = 7, 41, 53
+            plan = [(80, 30, 1)]
+            path_every, display_every, pulled_every = 11, 41, 53
         else:
             plan = [(60, 0, 1), (500, 40, 2)]
             path_every, display_every, pulled_every = 3, 17, 19
